@@ -11,6 +11,8 @@ import HealSparse.Props.C04
 import HealSparse.Props.C01
 import HealSparse.Props.C12
 import HealSparse.Lemmas.RecArray
+import HealSparse.Lemmas.ApiRecord
+import HealSparse.Props.C02
 namespace HS
 namespace C14
 
@@ -120,6 +122,452 @@ def pairFst : Lens (Int × Int) Int :=
 
 example : Inv ⟨3, 1⟩ (⟨(-1, -9), fun r => r.1 != -1⟩ : VCfg (Int × Int))
     ⟨#[4, -2, -2], #[(-1, -9), (-1, -9), (7, 1), (-1, -9), (-1, -9), (9, 2)]⟩ := by decide
+
+/-! ## C14 at the API level
+
+The theorems above are about the generic core functions over an abstract record cell.  Below:
+the same properties of the API functions themselves (`apiUpdate` on record maps,
+`apiGetSingleCopy`, `materializeView` / `writeBackView`) and of the protocol driver (`single`,
+`upd`, `updr`, `World.get?`, `World.put`), validation and error behaviour included
+(Lemmas/ApiRecord.lean).  `m.validAt p` = `p` is a valid pixel of `m`; `m.covd k` =
+`coverage_mask[k]`; `recField i v` = field `i` of the record `v` (as a number);
+`recSetField i v x` = `v` with field `i` set to `x`. -/
+
+open ApiRecord ApiRanges
+
+/-- **(1) validity**: a pixel of a record map is valid iff the PRIMARY field of its record differs
+    from the sentinel -/
+theorem api_rec_valid {m : MapObj} {fs : List DT} {pr : Nat} (hk : m.kind = .recd fs pr)
+    {p : Nat} {l : List (Int × Nat)} (hl : m.abs p = .recd l) :
+    m.validAt p = true ↔ l.getD pr (0, 0) ≠ m.sent.numD := by
+  unfold MapObj.validAt MapObj.vc
+  rw [hk, hl]
+  show (Kind.recd fs pr).valid m.sent (.recd l) = true ↔ _
+  rw [valid_recd]
+  simp
+
+/-- **(1) whole-record `update_values_pix(pix, values)`**: accepted only for distinct in-range
+    pixels; afterwards every addressed pixel shows EXACTLY the record written (every field),
+    every other pixel is unchanged, the coverage grows by the coverage pixels addressed;
+    kind, sentinel, orders kept -/
+theorem api_rec_replace {m m' : MapObj} {pix : List Nat} {vs : List Val} {single : Bool}
+    (hm : m.Ok) (hne : pix ≠ []) (h : apiUpdate m "replace" pix (some vs) single = .ok m') :
+    m'.Ok ∧ m'.kind = m.kind ∧ m'.sent = m.sent ∧ pix.Nodup ∧ (∀ p ∈ pix, p < m.npix) ∧
+    (∀ qw ∈ updPv m pix (some vs) single, m'.abs qw.1 = qw.2) ∧
+    (∀ p, p < m.npix → p ∉ pix → m'.abs p = m.abs p) ∧
+    (∀ k, k < m.c.ncov → m'.covd k = (m.covd k || pix.any fun p => p >>> m.c.shift == k)) := by
+  obtain ⟨_, h2, h3, _, _, h6, h7, h8, h9, h10⟩ := replace_spec hm.1 hne h
+  exact ⟨(Ok.apiUpdate hm h).1, h2, h3, h6, h7, h8, h9, h10⟩
+
+/-- … in particular one record `v` written to all of `pix` -/
+theorem api_rec_replace_scalar {m m' : MapObj} {pix : List Nat} {v : Val}
+    (hm : m.Ok) (h : apiUpdate m "replace" pix (some [v]) true = .ok m') :
+    ∀ p ∈ pix, m'.abs p = v := by
+  intro p hp
+  have hne : pix ≠ [] := by intro he; rw [he] at hp; cases hp
+  exact (api_rec_replace hm hne h).2.2.2.2.2.1 (p, v) (List.mem_map.2 ⟨p, hp, rfl⟩)
+
+/-- **(1) a record whose primary IS the sentinel is stored all the same**: the pixel is then
+    invalid, yet it shows every field written (a single-field COPY hides them, a VIEW shows them:
+    `api_copy_vs_view`) -/
+theorem api_rec_replace_invalid_primary {m m' : MapObj} {pix : List Nat} {l : List (Int × Nat)}
+    {fs : List DT} {pr : Nat} (hm : m.Ok) (hk : m.kind = .recd fs pr)
+    (h : apiUpdate m "replace" pix (some [.recd l]) true = .ok m')
+    (hl : l.getD pr (0, 0) = m.sent.numD) :
+    ∀ p ∈ pix, m'.abs p = .recd l ∧ m'.validAt p = false := by
+  intro p hp
+  have hne : pix ≠ [] := by intro he; rw [he] at hp; cases hp
+  have habs := api_rec_replace_scalar hm h p hp
+  obtain ⟨_, hk', hs', _⟩ := api_rec_replace hm hne h
+  refine ⟨habs, ?_⟩
+  have hiff := api_rec_valid (m := m') (hk'.trans hk) habs
+  rw [hs'] at hiff
+  cases hv : m'.validAt p with
+  | false => rfl
+  | true => exact absurd hl (hiff.1 hv)
+
+/-- **(1) `update_values_pix(pix, None)`** stores the blank record at every addressed pixel —
+    field by field: the sentinel in the primary, each other field its type's default sentinel —,
+    changes nothing else and allocates no coverage pixel -/
+theorem api_rec_clear {m m' : MapObj} {pix : List Nat} {single : Bool} {fs : List DT} {pr : Nat}
+    (hm : m.Ok) (hk : m.kind = .recd fs pr) (hne : pix ≠ [])
+    (h : apiUpdate m "replace" pix none single = .ok m') :
+    m'.Ok ∧ (∀ p ∈ pix, m'.abs p = (Kind.recd fs pr).blank m.sent ∧ m'.validAt p = false) ∧
+    (∀ i dt, fs[i]? = some dt → recField i ((Kind.recd fs pr).blank m.sent) =
+        if i = pr then .num m.sent.numD.1 m.sent.numD.2
+        else .num dt.defaultSentinel.numD.1 dt.defaultSentinel.numD.2) ∧
+    (∀ p, p < m.npix → p ∉ pix → m'.abs p = m.abs p) ∧
+    (∀ k, k < m.c.ncov → m'.covd k = m.covd k) := by
+  obtain ⟨_, h2, h3, _, _, h6, h7, h8⟩ := clear_spec hm.1 hne h
+  have hok := (Ok.apiUpdate hm h).1
+  refine ⟨hok, fun p hp => ?_, fun i dt hg => recField_blank m.sent hg, h7, h8⟩
+  have habs : m'.abs p = (Kind.recd fs pr).blank m.sent := by rw [h6 p hp, hk]
+  refine ⟨habs, ?_⟩
+  have hbi := hok.2.1.blankInvalid
+  unfold MapObj.BlankInvalid at hbi
+  unfold MapObj.validAt
+  rw [habs]
+  have : m'.vc.sentinel = (Kind.recd fs pr).blank m.sent := by
+    unfold MapObj.vc; rw [h2, h3, hk]
+  rw [← this]
+  exact hbi
+
+/-- **(2) `get_single(key, sentinel, copy=True)`, errors exactly**: `TypeError` iff the map is not
+    a record map; `ValueError` iff the field index is outside the record, or the field is not the
+    primary and `check_sentinel(field type, override)` refuses the override; the primary field
+    keeps the map's sentinel whatever override is given -/
+theorem api_single_copy_total (m : MapObj) (i : Nat) (sentinel : Option Val) :
+    apiGetSingleCopy m i sentinel =
+      match m.kind with
+      | .recd fs pr =>
+        match fs[i]? with
+        | none => .error .value
+        | some dt =>
+          if i = pr then .ok (copyOf m i dt m.sent)
+          else match checkSentinel dt sentinel with
+            | .ok s => .ok (copyOf m i dt s)
+            | .error e => .error e
+      | _ => .error .type :=
+  apiGetSingleCopy_eq m i sentinel
+
+/-- **(2) `get_single(copy=True)`**: an `Ok` owning map of kind `plain fs[i]` with the orders and
+    the coverage of `m`; at the pixels valid in `m` the stored field, the copy's sentinel
+    everywhere else.  **The collision, exactly**: `p` is valid in the copy iff it is valid in `m`
+    AND the stored field value differs from the copy's sentinel.  For the primary field: valid in
+    the copy ⇔ valid in `m`. -/
+theorem api_single_copy {m k : MapObj} {i : Nat} {sentinel : Option Val} (hm : m.Ok)
+    (h : apiGetSingleCopy m i sentinel = .ok k) :
+    k.Ok ∧ k.view = none ∧ k.covord = m.covord ∧ k.spord = m.spord ∧
+    (∃ fs pr dt, m.kind = .recd fs pr ∧ fs[i]? = some dt ∧ k.kind = .plain dt ∧
+      ((i = pr ∧ k.sent = m.sent) ∨ (i ≠ pr ∧ checkSentinel dt sentinel = .ok k.sent))) ∧
+    (∀ j, k.covd j = m.covd j) ∧
+    (∀ p, p < m.npix → k.abs p = if m.validAt p = true then recField i (m.abs p) else k.sent) ∧
+    (∀ p, p < m.npix → k.validAt p = (m.validAt p && recField i (m.abs p) != k.sent)) ∧
+    (∀ fs pr, m.kind = .recd fs pr → i = pr → ∀ p, p < m.npix → k.validAt p = m.validAt p) := by
+  obtain ⟨_, h2, h3, h4, _, h6, h7, h8, h9⟩ := copy_spec hm.1 hm.2.1 h
+  obtain ⟨fs, pr, dt, hk, hg, hc, hs⟩ := copy_ok h
+  exact ⟨(Ok.apiGetSingleCopy hm h).1, h4, h2, h3, ⟨fs, pr, dt, hk, hg, by rw [hc]; rfl, hs⟩,
+    h6, h7, h8, h9⟩
+
+/-- **(3) `single m field=i [sentinel=…] r=v`** (view form), exactly when it is refused:
+    `TypeError` — not a record map; `ValueError` — field outside the record, an override the field
+    type does not accept, or ANY effective re-sentinelling of a non-primary field; `bad-op` — a
+    boolean field (not modelled).  Accepted otherwise, registering a view whose sentinel is the
+    map's for the primary field (an override is ignored) and the type's default otherwise. -/
+theorem api_single_view_total {w : World} {a : Args} {n : String} {rest : List String} {m : MapObj}
+    {i : Nat} {sent : Option Val} (ha : a.pos = n :: rest) (hget : w.get? n = some m)
+    (hf : a.nat? "field" = some i) (hs : optVal a "sentinel" = some sent)
+    (hc : a.flag "copy" = false) :
+    stepArgs w "single" a =
+      match m.kind with
+      | .recd fs pr =>
+        match fs[i]? with
+        | none => (w, "err ValueError")
+        | some dt =>
+          if dt = .bool then (w, "bad-op:single-of-boolean-field")
+          else if i = pr then (register w n (a.getD "r" "tmp") m i dt m.sent, "ok")
+          else match checkSentinel dt sent with
+            | .error _ => (w, "err ValueError")
+            | .ok s =>
+              if s ≠ dt.defaultSentinel then (w, "err ValueError")
+              else (register w n (a.getD "r" "tmp") m i dt s, "ok")
+      | _ => (w, "err TypeError") :=
+  opSingle_view_eq ha hget hf hs hc
+
+/-- **(3) what the registered view is**: under the name `r` (≠ the parent's) `get?` answers the
+    view materialised from the parent's CURRENT storage, and the parent is untouched.  The view
+    shows field `i` of the parent's record at EVERY pixel (valid in the parent or not), over the
+    parent's coverage; it is valid at `p` iff that value differs from its sentinel; the view of
+    the primary field is valid exactly where the parent is.  (`s` is the sentinel
+    `api_single_view_total` registers: `hs` holds for the primary field when the map's sentinel
+    is a number, and for any other non-boolean field: `viewBlank_primary`, `viewBlank_other`.) -/
+theorem api_single_view {w : World} (hw : w.Good) {n r : String} {m : MapObj} {i : Nat} {dt : DT}
+    {s : Val} {fs : List DT} {pr : Nat} (hget : w.get? n = some m) (hk : m.kind = .recd fs pr)
+    (hg : fs[i]? = some dt) (hb : dt ≠ .bool) (hs : s = viewBlank m i) (hrn : r ≠ n) :
+    let w' := register w n r m i dt s
+    let v := viewOf m n i dt s none
+    w'.get? r = some v ∧ w'.get? n = some m ∧ v.WF ∧ v.kind = .plain dt ∧ v.sent = s ∧
+    (∀ q, q < m.npix → v.abs q = recField i (m.abs q)) ∧
+    (∀ k, v.covd k = m.covd k) ∧
+    (∀ q, q < m.npix → v.validAt q = (recField i (m.abs q) != s)) ∧
+    (∀ x e, i = pr → m.sent = .num x e → ∀ q, q < m.npix → v.validAt q = m.validAt q) := by
+  intro w' v
+  have hmok := hw.get hget
+  obtain ⟨g1, g2⟩ := get?_register hget hk hg hb hs hrn
+  obtain ⟨_, v2, v3, v4, v5, v6⟩ := view_spec hmok.1 n i dt s none
+  refine ⟨g1, g2, v2 hs, rfl, rfl, v3, v4, v5, ?_⟩
+  intro x e hip hsn q hq
+  subst hip
+  have hsm : s = m.sent := by rw [hs]; exact viewBlank_primary hk hg hsn
+  exact v6 fs x e hk hsn hsm q hq
+
+/-- **(2)+(3) copy versus view of the same field**: they agree wherever the parent is valid;
+    where the parent is INVALID the copy shows its sentinel while the view shows whatever the
+    storage holds in that field (after a whole-record write with the primary at the sentinel:
+    the value written — `ex_copy_vs_view`) -/
+theorem api_copy_vs_view {m k : MapObj} {i : Nat} {sentinel : Option Val} {pn : String} {dt : DT}
+    {s : Val} {c : Option Nat} (hm : m.Ok) (h : apiGetSingleCopy m i sentinel = .ok k)
+    (p : Nat) (hp : p < m.npix) :
+    (m.validAt p = true → k.abs p = (viewOf m pn i dt s c).abs p) ∧
+    (m.validAt p = false → k.abs p = k.sent ∧ (viewOf m pn i dt s c).abs p = recField i (m.abs p)) := by
+  have h7 := (copy_spec hm.1 hm.2.1 h).2.2.2.2.2.2.1 p hp
+  have hv := (view_spec hm.1 pn i dt s c).2.2.1 p hp
+  constructor
+  · intro hval; rw [h7, if_pos hval, hv]
+  · intro hval; rw [h7, hval]; exact ⟨by simp, hv⟩
+
+/-- **(4) `upd v pix=… …` through a view, accepted**: the parent's name then resolves to a
+    record map `p'` that is `Ok`, has the parent's kind, sentinel, orders and coverage, a reset
+    `n_valid` cache, and in which EXACTLY field `i` of EXACTLY the addressed pixels may differ:
+    every pixel not addressed is unchanged, every other field of every pixel is unchanged, and
+    field `i` is what the updated view shows (`p'.abs q = recSetField i (p.abs q) (v'.abs q)`);
+    every name other than the view's and the parent's is untouched -/
+theorem api_view_write {w : World} (hw : w.Good) {a : Args} {vn pn : String} {rest : List String}
+    {i : Nat} {v : MapObj} (ha : a.pos = vn :: rest) (hget : w.get? vn = some v)
+    (hview : v.view = some (pn, i)) (hok : (stepArgs w "upd" a).2 = "ok") :
+    ∃ (p p' v' : MapObj) (pix : List Nat), parseNats (a.getD "pix" "_") = some pix ∧
+      (∃ vals single, apiUpdate v (a.getD "op" "replace") pix vals single = .ok v') ∧
+      w.get? pn = some p ∧ (stepArgs w "upd" a).1.get? pn = some p' ∧
+      p'.Ok ∧ p'.kind = p.kind ∧ p'.sent = p.sent ∧ p'.covord = p.covord ∧ p'.spord = p.spord ∧
+      p'.cache = none ∧ (∀ k, p'.covd k = p.covd k) ∧
+      (∀ q, q < p.npix → p'.abs q = recSetField i (p.abs q) (v'.abs q)) ∧
+      (∀ q, q < p.npix → q ∉ pix → p'.abs q = p.abs q) ∧
+      (∀ q, q < p.npix → ∀ j, j ≠ i → recField j (p'.abs q) = recField j (p.abs q)) ∧
+      (∀ x, x ≠ vn → x ≠ pn → (stepArgs w "upd" a).1.raw? x = w.raw? x) := by
+  have hok' : (opUpd w a).2 = "ok" := hok
+  obtain ⟨n, rest', m, m', pix, vals, single, hpos, hg, hpix, hu, he⟩ := opUpd_ok hok'
+  rw [ha] at hpos
+  cases hpos
+  rw [hget] at hg
+  cases hg
+  obtain ⟨p, p', g1, g2, _, g4, g5, g6, g7, g8, g9, g10, g11, g12, g13, g14⟩ :=
+    write_through_view hw hget hview hu
+  have hst : stepArgs w "upd" a = (w.put vn m', "ok") := he
+  rw [hst]
+  exact ⟨p, p', m', pix, hpix, ⟨vals, single, hu⟩, g1, g2, g4, g5, g6, g7, g8, g9, g10, g11, g12, g13, g14⟩
+
+/-- **(4) the same for `updr v ranges=… …`** (a view always takes the explicit path, so both
+    `path=` settings): the addressed pixels are those of the ranges -/
+theorem api_view_write_ranges {w : World} (hw : w.Good) {a : Args} {vn pn : String}
+    {rest : List String} {i : Nat} {v : MapObj} (ha : a.pos = vn :: rest)
+    (hget : w.get? vn = some v) (hview : v.view = some (pn, i))
+    (hok : (stepArgs w "updr" a).2 = "ok") :
+    ∃ (p p' v' : MapObj) (R : List (Nat × Nat)), parseRanges (a.getD "ranges" "_") = some R ∧
+      (∃ val sp, apiUpdateRanges v (a.getD "op" "replace") R val sp = .ok v') ∧
+      w.get? pn = some p ∧ (stepArgs w "updr" a).1.get? pn = some p' ∧
+      p'.Ok ∧ p'.kind = p.kind ∧ p'.sent = p.sent ∧ p'.covord = p.covord ∧ p'.spord = p.spord ∧
+      p'.cache = none ∧ (∀ k, p'.covd k = p.covd k) ∧
+      (∀ q, q < p.npix → p'.abs q = recSetField i (p.abs q) (v'.abs q)) ∧
+      (∀ q, q < p.npix → q ∉ expand R → p'.abs q = p.abs q) ∧
+      (∀ q, q < p.npix → ∀ j, j ≠ i → recField j (p'.abs q) = recField j (p.abs q)) ∧
+      (∀ x, x ≠ vn → x ≠ pn → (stepArgs w "updr" a).1.raw? x = w.raw? x) := by
+  have hok' : (opUpdr w a).2 = "ok" := hok
+  obtain ⟨n, rest', m, m', R, val, sp, hpos, hg, hR, hu, he⟩ := opUpdr_ok hok'
+  rw [ha] at hpos
+  cases hpos
+  rw [hget] at hg
+  cases hg
+  obtain ⟨ru, hu'⟩ := apiUpdateRanges_view_ok (by rw [hview]; rfl) hu
+  obtain ⟨p, p', g1, g2, _, g4, g5, g6, g7, g8, g9, g10, g11, g12, g13, g14⟩ :=
+    write_through_view hw hget hview hu'
+  have hst : stepArgs w "updr" a = (w.put vn m', "ok") := he
+  rw [hst]
+  exact ⟨p, p', m', R, hR, ⟨val, sp, hu⟩, g1, g2, g4, g5, g6, g7, g8, g9, g10, g11, g12, g13, g14⟩
+
+/-- **(4) refused ⇒ nothing changes**: an `upd` / `updr` line that does not answer `ok` (through
+    a view: e.g. a pixel that is not valid in the view, "creating new valid pixels" —
+    `view_guard_rejects`) leaves every lookup of the world as it was, up to the `n_valid` cache:
+    in particular the parent shows the same records over the same coverage -/
+theorem api_view_write_refused {w : World} (hw : w.Good) (a : Args) :
+    ((stepArgs w "upd" a).2 ≠ "ok" → ∀ x p p', w.get? x = some p →
+        (stepArgs w "upd" a).1.get? x = some p' →
+        p'.st = p.st ∧ p'.kind = p.kind ∧ p'.sent = p.sent ∧ (∀ q, p'.abs q = p.abs q) ∧
+          (∀ k, p'.covd k = p.covd k)) ∧
+    ((stepArgs w "updr" a).2 ≠ "ok" → ∀ x p p', w.get? x = some p →
+        (stepArgs w "updr" a).1.get? x = some p' →
+        p'.st = p.st ∧ p'.kind = p.kind ∧ p'.sent = p.sent ∧ (∀ q, p'.abs q = p.abs q) ∧
+          (∀ k, p'.covd k = p.covd k)) := by
+  have key : ∀ (w' : World), SameMaps w' w → ∀ x p p', w.get? x = some p → w'.get? x = some p' →
+      p'.st = p.st ∧ p'.kind = p.kind ∧ p'.sent = p.sent ∧ (∀ q, p'.abs q = p.abs q) ∧
+        (∀ k, p'.covd k = p.covd k) := by
+    intro w' hs x p p' h1 h2
+    have := hs x
+    rw [h1, h2] at this
+    have he : forgetCache p' = forgetCache p := Option.some.inj this
+    obtain ⟨co, so, k, se, st, ca, vi⟩ := p
+    obtain ⟨co', so', k', se', st', ca', vi'⟩ := p'
+    simp only [forgetCache, MapObj.mk.injEq] at he
+    obtain ⟨rfl, rfl, rfl, rfl, rfl, _, rfl⟩ := he
+    exact ⟨rfl, rfl, rfl, fun _ => rfl, fun _ => rfl⟩
+  exact ⟨fun h => key _ (opUpd_not_ok hw a h), fun h => key _ (opUpdr_not_ok hw a h)⟩
+
+/-- **(4) `replace` through a view stores exactly the value written** in field `i` of each
+    addressed pixel's record -/
+theorem api_view_replace_exact {p : MapObj} {pn : String} {i : Nat} {dt : DT} {s : Val}
+    {c : Option Nat} {v' : MapObj} {pix : List Nat} {x : Val} {fs : List DT} {pr : Nat}
+    (hp : p.Ok) (hk : p.kind = .recd fs pr) (hg : fs[i]? = some dt) (hs : s = viewBlank p i)
+    (h : apiUpdate (viewOf p pn i dt s c) "replace" pix (some [x]) true = .ok v') :
+    ∀ q ∈ pix, (writeBackView p i v').abs q = recSetField i (p.abs q) x := by
+  intro q hq
+  exact view_replace_spec hp.1 hk hg hs h (q, x) (List.mem_map.2 ⟨q, hq, rfl⟩)
+
+/-- … so that, when the parent's cell is a record that has field `i` and the value is a number,
+    field `i` reads back as written -/
+theorem api_view_replace_reads_back {p : MapObj} {pn : String} {i : Nat} {dt : DT} {s : Val}
+    {c : Option Nat} {v' : MapObj} {pix : List Nat} {n : Int} {e : Nat} {fs : List DT} {pr : Nat}
+    (hp : p.Ok) (hk : p.kind = .recd fs pr) (hg : fs[i]? = some dt) (hs : s = viewBlank p i)
+    (h : apiUpdate (viewOf p pn i dt s c) "replace" pix (some [.num n e]) true = .ok v')
+    (q : Nat) (hq : q ∈ pix) (l : List (Int × Nat)) (hl : p.abs q = .recd l) (hi : i < l.length) :
+    recField i ((writeBackView p i v').abs q) = .num n e := by
+  rw [api_view_replace_exact hp hk hg hs h q hq, hl, recField_recSetField_self hi]
+
+/-- **(4) writing the sentinel through the view of the PRIMARY field** invalidates the pixel in
+    the parent and keeps every other field of its record -/
+theorem api_view_primary_sentinel {p : MapObj} {pn : String} {dt : DT} {c : Option Nat}
+    {v' : MapObj} {pix : List Nat} {n : Int} {e : Nat} {fs : List DT} {pr : Nat}
+    (hp : p.Ok) (hk : p.kind = .recd fs pr) (hg : fs[pr]? = some dt) (hsn : p.sent = .num n e)
+    (h : apiUpdate (viewOf p pn pr dt p.sent c) "replace" pix (some [p.sent]) true = .ok v')
+    (q : Nat) (hq : q ∈ pix) (l : List (Int × Nat)) (hl : p.abs q = .recd l) (hi : pr < l.length) :
+    (writeBackView p pr v').validAt q = false ∧
+    ∀ j, j ≠ pr → recField j ((writeBackView p pr v').abs q) = recField j (p.abs q) := by
+  have hs : p.sent = viewBlank p pr := (viewBlank_primary hk hg hsn).symm
+  have habs := api_view_replace_exact hp hk hg hs h q hq
+  obtain ⟨h1, h2⟩ := primary_sentinel_invalidates (l := l) hk hsn hi
+  rw [hl, hsn] at habs
+  refine ⟨?_, fun j hj => by rw [habs, hl]; exact h2 j hj⟩
+  unfold MapObj.validAt
+  rw [habs]
+  exact h1
+
+/-- **(5) a view is never stale**: after an accepted `upd` of the PARENT, the view's name resolves
+    to the view of the parent's NEW storage — it shows field `i` of the new records at every
+    pixel.  (`nvalid v` is never stale either: `C02.reachable_nvalid`, a view does not cache the
+    count.) -/
+theorem api_view_fresh {w : World} (hw : w.Good) {a : Args} {vn pn : String} {rest : List String}
+    {i : Nat} {v : MapObj} (ha : a.pos = pn :: rest) (hget : w.get? vn = some v)
+    (hview : v.view = some (pn, i)) (hok : (stepArgs w "upd" a).2 = "ok") :
+    ∃ m' v₂, (stepArgs w "upd" a).1.get? pn = some m' ∧ (stepArgs w "upd" a).1.get? vn = some v₂ ∧
+      v₂.sent = v.sent ∧ v₂.kind = v.kind ∧ (∀ k, v₂.covd k = m'.covd k) ∧
+      ∀ q, q < m'.npix → v₂.abs q = recField i (m'.abs q) := by
+  have hok' : (opUpd w a).2 = "ok" := hok
+  obtain ⟨n, rest', m, m', pix, vals, single, hpos, hg, _, hu, he⟩ := opUpd_ok hok'
+  rw [ha] at hpos
+  cases hpos
+  have hst : stepArgs w "upd" a = (w.put pn m', "ok") := he
+  rw [hst]
+  have hsame : ∀ p, w.get? pn = some p → m'.Same p := by
+    intro p hp
+    rw [hg] at hp
+    cases hp
+    exact (Ok.apiUpdate (hw.get hg) hu).2
+  obtain ⟨dt, hkd, g2, g3⟩ := get?_view_after_parent_put hw hget hview hsame
+  have hm'wf : m'.WF := (Ok.apiUpdate (hw.get hg) hu).1.1
+  obtain ⟨_, _, v3, v4, _, _⟩ := view_spec hm'wf pn i dt v.sent v.cache
+  exact ⟨m', _, g3, g2, rfl, hkd.symm, v4, v3⟩
+
+/-! ### non-vacuity and evaluated examples -/
+
+/-- a record map with fields (i4, f8), primary 0, sentinel -5, orders 0 / 1: pixel 5 valid
+    `(3, 2.5)`, pixel 6 written with the primary AT the sentinel `(-5, 7.5)` -/
+def exRec : Except Err MapObj := do
+  let m ← apiMakeEmpty 0 1 (.recd [.int 32 true, .flt 64] 0) (some (.num (-5) 0)) []
+  apiUpdate m "replace" [5, 6] (some [.recd [(3, 0), (5, 1)], .recd [(-5, 0), (15, 1)]]) false
+
+/-- the hypotheses are met; pixel 6 is invalid but shows every field written -/
+example : WFApi.okAnd exRec (fun m => decide m.Ok && m.abs 5 == .recd [(3, 0), (5, 1)] &&
+    m.abs 6 == .recd [(-5, 0), (15, 1)] && m.validAt 5 && !m.validAt 6 &&
+    nValid m.vc m.st == 1) = true := by decide +kernel
+
+/-- **copy versus view of field 1** (`ex_copy_vs_view`): they agree at the valid pixel 5; at
+    pixel 6 (primary at the sentinel) the copy shows its sentinel and is invalid, the view shows
+    the stored 7.5 and is VALID (`n_valid` 1 vs 2); the sentinel collision: a copy with the
+    override sentinel 2.5 loses pixel 5 -/
+def exCopyView : Except Err (MapObj × MapObj × MapObj) := do
+  let m ← exRec
+  let k ← apiGetSingleCopy m 1 none
+  let v ← materializeView m "m" 1 (DT.flt 64).defaultSentinel none
+  let k2 ← apiGetSingleCopy m 1 (some (.num 5 1))
+  pure (k, v, k2)
+
+example : WFApi.okAnd exCopyView (fun r =>
+    match r with
+    | (k, v, k2) =>
+      decide k.Ok && decide v.WF && k.abs 5 == .num 5 1 && v.abs 5 == .num 5 1 &&
+      k.abs 6 == k.sent && !k.validAt 6 && v.abs 6 == .num 15 1 && v.validAt 6 &&
+      nValid k.vc k.st == 1 && nValid v.vc v.st == 2 &&
+      k2.sent == .num 5 1 && !k2.validAt 5 && nValid k2.vc k2.st == 0) = true := by
+  decide +kernel
+
+/-- errors of `get_single(copy=True)`: not a record map — `TypeError`; field 7 — `ValueError`;
+    an override the field type refuses — `ValueError`; an override on the primary is ignored -/
+example :
+    (match apiGetSingleCopy (WFApi.blankMap (.plain (.int 32 true)) (.num 0 0)) 0 none with
+     | .error .type => true | _ => false) = true ∧
+    WFApi.okAnd exRec (fun m =>
+      (match apiGetSingleCopy m 7 none with | .error .value => true | _ => false) &&
+      (match apiGetSingleCopy m 1 (some (.bool true)) with | .error .value => true | _ => false) &&
+      (match apiGetSingleCopy m 0 (some (.num 9 0)) with | .ok k => k.sent == .num (-5) 0 | _ => false))
+      = true := by decide +kernel
+
+/-- the answers of a history -/
+def replies (lines : List String) : List String :=
+  (lines.foldl (fun (wo : World × List String) l => ((step wo.1 l).1, wo.2 ++ [(step wo.1 l).2]))
+    ({}, [])).2
+
+/-! through the driver: the same record map; views of both fields; a write through the
+    non-primary view at pixel 6 (invalid in the parent, valid in the view) changes field 1 only;
+    a refused write (pixel 7 is not valid in the view) changes nothing; writing the sentinel
+    through the primary view invalidates pixel 5 but keeps its field 1; a later parent write is
+    seen by the view, whose `nvalid` follows; `None` stores the blank record; a sentinel
+    override on a non-primary view is refused, on the primary view ignored -/
+#guard replies [
+  "cfg m kind=rec covord=0 spord=1 fields=i4,f8 primary=0 sentinel=-5",
+  "upd m pix=5,6 vals=r3;5^1,r-5;15^1",
+  "nvalid m", "get m pix=5,6",
+  "single m field=1 r=vb", "single m field=0 r=va", "single m field=1 copy=1 r=kb",
+  "get vb pix=5,6,7", "get kb pix=5,6,7", "nvalid vb", "nvalid kb",
+  "upd vb pix=6 val=19^1", "get m pix=5,6", "nvalid m",
+  "upd vb pix=7 val=3^1", "get m pix=7", "covmask m",
+  "upd va pix=5 val=-5", "get m pix=5", "nvalid m", "nvalid va",
+  "upd m pix=7 vals=r4;5^2", "get vb pix=7", "nvalid vb", "nvalid va",
+  "upd m pix=6 none=1", "get m pix=6",
+  "single m field=1 sentinel=3 r=bad", "single m field=0 sentinel=3 r=va2", "info va2",
+  "single m field=7 r=bad", "single vb field=0 r=bad"] ==
+  ["ok", "ok", "1", "r3;5^1,r-5;15^1",
+   "ok", "ok", "ok",
+   "5^1,15^1,-1637499999999999923489519697920",
+   "5^1,-1637499999999999923489519697920,-1637499999999999923489519697920",
+   "2", "1",
+   "ok", "r3;5^1,r-5;19^1", "1",
+   "err RuntimeError", "r-5;-1637499999999999923489519697920", "010000000000",
+   "ok", "r-5;5^1", "0", "0",
+   "ok", "5^2", "3", "1",
+   "ok", "r-5;-1637499999999999923489519697920",
+   "err ValueError", "ok", "kind=plain:i4 covord=0 spord=1 sentinel=-5",
+   "err ValueError", "err TypeError"]
+
+/-! the hypotheses of the driver-level theorems are met along a history: `vb` resolves to a view
+    of field 1 of `m`, the write through it and the parent write are accepted -/
+def exHist : List String := [
+  "cfg m kind=rec covord=0 spord=1 fields=i4,f8 primary=0 sentinel=-5",
+  "upd m pix=5,6 vals=r3;5^1,r-5;15^1",
+  "single m field=1 r=vb"]
+
+#guard ((runLines exHist).get? "vb").map (·.view) == some (some ("m", 1))
+#guard (stepArgs (runLines exHist) "upd" ⟨["vb"], [("pix", "6"), ("val", "19^1")]⟩).2 == "ok"
+#guard (stepArgs (runLines exHist) "upd" ⟨["m"], [("pix", "7"), ("vals", "r4;5^2")]⟩).2 == "ok"
+#guard (stepArgs (runLines exHist) "upd" ⟨["vb"], [("pix", "7"), ("val", "3^1")]⟩).2 == "err RuntimeError"
+
+/-- `api_view_write`, `api_view_fresh` instantiated at a reachable world (its `Good`ness is
+    `Good.runLines`) -/
+example (v : MapObj) (hget : (runLines exHist).get? "vb" = some v) (hview : v.view = some ("m", 1))
+    (hok : (stepArgs (runLines exHist) "upd" ⟨["vb"], [("pix", "6"), ("val", "19^1")]⟩).2 = "ok") :
+    ∃ p p' : MapObj, (runLines exHist).get? "m" = some p ∧
+      (stepArgs (runLines exHist) "upd" ⟨["vb"], [("pix", "6"), ("val", "19^1")]⟩).1.get? "m" = some p' ∧
+      ∀ q, q < p.npix → ∀ j, j ≠ 1 → recField j (p'.abs q) = recField j (p.abs q) := by
+  obtain ⟨p, p', _, _, _, _, h1, h2, _, _, _, _, _, _, _, _, _, h3, _⟩ :=
+    api_view_write (Good.runLines exHist) (a := ⟨["vb"], [("pix", "6"), ("val", "19^1")]⟩) rfl hget hview hok
+  exact ⟨p, p', h1, h2, h3⟩
 
 end C14
 end HS
